@@ -219,8 +219,16 @@ def apply_standard_rewrites(text, log):
     if n: log.append(('R2', 'panic!/unreachable! -> vpanic() [requires false]', n))
     text, n = rewrite_macro(text, ['debug', 'info', 'warn', 'error', 'trace', 'eprintln', 'println', 'eprint', 'print'], lambda nm, a: '()')
     if n: log.append(('R3', 'logging macro -> ()', n))
-    text, n = rewrite_macro(text, ['bail'], lambda nm, a: 'return Err(verr())')
-    if n: log.append(('R4', 'bail!(..) -> return Err(verr())', n))
+    def r4(nm, a):
+        # the message payload is dropped, but arguments that can panic while being evaluated (slicing, indexing, unwrap)
+        # are kept as statements so that their panic-freedom stays an obligation
+        parts = split_top_commas(a)[1:]
+        keep = [p for p in parts if re.search(r'\[|\.unwrap\(|\.expect\(', mask(p))]
+        if keep:
+            return '{ ' + ' '.join('let _ = &(%s);' % k for k in keep) + ' return Err(verr()) }'
+        return 'return Err(verr())'
+    text, n = rewrite_macro(text, ['bail'], r4)
+    if n: log.append(('R4', 'bail!(..) -> return Err(verr()); message arguments that slice/index/unwrap are kept as `let _ = &(arg);`', n))
     text, n = strip_method_call(text, 'chain_err')
     if n: log.append(('R4', '.chain_err(..) dropped', n))
     text, n = drop_cfg_wasm(text)
